@@ -9,14 +9,14 @@ VERIF = gen.VERIF
 REPLAY = os.path.join(VERIF, 'replay')
 
 PROP_ORACLES = {
-    'C01': ['tree.memory', 'tree.altroot', 'tree.overlay', 'tree.physical', 'union.overlay'],
-    'C03': ['tree.memory', 'tree.altroot', 'tree.overlay', 'union.overlay'],
+    'C01': ['tree.memory', 'tree.altroot', 'tree.overlay', 'tree.physical', 'union.overlay', 'tree.stack'],
+    'C03': ['tree.memory', 'tree.altroot', 'tree.overlay', 'union.overlay', 'tree.stack'],
     'C04': ['reader', 'writer', 'tree.memory', 'tree.physical', 'union.overlay', 'transfer', 'handles'],
     'C05': ['tree.memory', 'tree.altroot', 'tree.overlay', 'tree.physical', 'union.overlay', 'hostile.physical', 'walk.vanish'],
     'C06': ['paths'],
-    'C07': ['tree.altroot', 'composite.altroot', 'tree.physical', 'transfer', 'paths'],
+    'C07': ['tree.altroot', 'composite.altroot', 'tree.physical', 'transfer', 'paths', 'tree.stack'],
     'C08': ['overlay', 'faults'],
-    'C09': ['tree.overlay', 'union.overlay', 'overlay'],
+    'C09': ['tree.overlay', 'union.overlay', 'overlay', 'tree.stack'],
     'C10': ['overlay', 'union.overlay'],
     'C11': ['composite.memory', 'composite.altroot', 'composite.physical', 'transfer', 'copydir'],
     'C12': ['paths', 'tree.memory', 'tree.altroot', 'walk.vanish', 'faults'],
@@ -34,6 +34,7 @@ BOUNDS = {
     'tree.memory': 'all sequences of 2 (deep: 3) operations (5 primitives plus move_file / copy_file to a fixed destination) over the 14-path universe (incl. prefix siblings a/ab/a.b with a child below ab, a name that starts with the own directory name of the altroot, a directory nested in one of the same name a/a, a multi-byte directory with a child, a dot-file, a name containing a backslash) on MemoryFS, every observation (incl. walk_dir from the root: every entry once, directories first) compared with the abstract tree after every step',
     'tree.altroot': 'same sequences on AltrootFS over MemoryFS rooted at /r, plus: nothing outside /r changes',
     'tree.overlay': 'same sequences (length 2) on OverlayFS over two MemoryFS layers with an empty lower layer',
+    'tree.stack': 'the same sequences (length 2) on stacked adapters: altroot of altroot, altroot over an overlay, an overlay whose layers are altroots, an overlay whose upper layer is an overlay, an overlay of 4 layers (lower layers empty): plain tree semantics, lower layers stay empty',
     'composite.memory': 'sequences of 2 operations incl. create_dir_all / remove_dir_all on MemoryFS',
     'composite.altroot': 'sequences of 2 operations incl. create_dir_all / remove_dir_all on AltrootFS',
     'tree.physical': 'same sequences (length 2) on PhysicalFS over a fresh temporary directory, plus: nothing next to the root directory changes',
